@@ -210,6 +210,18 @@ pub fn prec_stream() -> Vec<TextCase> {
     }
     t.push(format!("{}a", "- ! ".repeat(20)));
     t.push(format!("a{}", ".b.0".repeat(20)));
+    // every reserved word of the crate (whether or not the lexer has a token for it) and a few near-misses, in every
+    // position a name can stand in
+    for w in [
+        "and", "or", "if", "then", "else", "is_some", "is_none", "some", "int", "float", "dec", "true", "false", "none", "contains", "in", "starts", "ends",
+        "date_time", "datetime", "duration", "to_upper", "to_lower", "uppercase", "lowercase", "trim", "round", "floor", "fract", "year", "month", "week", "day",
+        "hour", "minute", "second", "key", "val", "any", "all", "facts", "iff", "ands", "in_", "nones", "f", "d", "i", "e", "x0", "_a", "__",
+        "d5e3", "f5e3", "d5e", "i5e3", "d5x", "f.5", "d.25", "f-.5", "f.14e-5",
+    ] {
+        for form in ["{w}", "{w}(a)", "{w} (a)", "a.{w}", ":{w}", "{{{w}: a}}", "{w}.a", "{w}.0", "[{w}]", "{w} + a", "a + {w}", "{w}({w})", "a.{w}.{w}", "{w} contains {w}"] {
+            t.push(form.replace("{w}", w));
+        }
+    }
     for (x, y) in [("=", "=="), ("is_some", "some"), ("is_none", "none"), ("date_time", "datetime"), ("to_upper", "uppercase"), ("to_lower", "lowercase")] {
         if x == "=" {
             t.push("a = b".into());
